@@ -20,6 +20,7 @@ import (
 	"github.com/jsightapi/jsight-schema-core/rules/enum"
 
 	"verifmc/core"
+	"verifmc/gen"
 	"verifmc/seq"
 	"verifmc/state"
 )
@@ -186,6 +187,17 @@ func (r *spaceRunner) run(b spaceBounds) {
 	r.stringFamily()
 	// (f) API call sequences in unusual orders
 	r.apiFamily()
+	// (h) the annotated-model family (every rule kind with its boundary values, incl.
+	// 19/20-digit and 2^63 / 2^64-1 rule values) through the whole bundle
+	var am int64
+	gen.AnnotatedFamily(1, func(m *gen.Model) {
+		am++
+		if !w.Mine(am) {
+			return
+		}
+		r.projectCase("annotated", modelProject(m, gen.Canonical))
+		w.S.Nontrivial++
+	})
 	// (g) regex patterns that stress the example generator
 	if w.Shard == 0 {
 		for _, t := range c18Extra {
